@@ -1,8 +1,11 @@
 # Registry of property checks.
 from p_tokens import C16
 from p_router import C17
+from p_response import C05, C06
 
 REGISTRY = {
     'C16': C16,
     'C17': C17,
+    'C05': C05,
+    'C06': C06,
 }
